@@ -55,7 +55,9 @@ def gen_case(rnd, tier, index):
         anc |= dag.ancestors(o)
     anc = [a for a in dag.order if a in anc]     # never iterate a set: PYTHONHASHSEED
     leaf = [a for a in anc if not wbgen.is_formula_cell(dag.cell[a]) and a not in pinned]
-    buried = [a for a in anc if wbgen.is_formula_cell(dag.cell[a]) and 'cse' not in dag.cell[a]]
+    # (a formula that names its own cell - ROW() - is its own dependant and is not frozen)
+    buried = [a for a in anc if wbgen.is_formula_cell(dag.cell[a]) and 'cse' not in dag.cell[a]
+              and 'ROW()' not in dag.cell[a]['f'] and 'COLUMN()' not in dag.cell[a]['f']]
     # ranges written literally by formulas the outputs reach, made of constants only
     wranges = []
     for a in list(anc) + outputs:
@@ -165,10 +167,13 @@ def legalise(case):
     flat_inputs = set()
     for a in inputs:
         flat_inputs.update(wbgen.flat_range(a) if ':' in a else [a])
-    # a range input must still be written as exactly that range by some formula
+    # a range input must still be written as exactly that range by some formula the
+    # outputs reach (only then it is a node of the model that trim_graph sees)
     written = set()
+    reach_out = st.dag.closure(outputs) if outputs else set()
     for c in st.spec['cells']:
-        written.update(c.get('r', ()))
+        if c['a'] in reach_out:
+            written.update(c.get('r', ()))
     inputs = [a for a in inputs if ':' not in a or (
         a in written and all(not wbgen.is_formula_cell(st.dag.cell[m])
                              for m in wbgen.flat_range(a)))]
@@ -182,7 +187,8 @@ def legalise(case):
                     others.update(wbgen.flat_range(b) if ':' in b else [b])
             if others & st.dag.ancestors(a, declared=True):
                 continue
-            if 'cse' in st.dag.cell[a]:
+            if 'cse' in st.dag.cell[a] or 'ROW()' in st.dag.cell[a]['f'] or \
+                    'COLUMN()' in st.dag.cell[a]['f']:
                 continue
         ok_inputs.append(a)
     inputs = ok_inputs
